@@ -100,6 +100,7 @@ static uint64_t g_clock_ns, g_clock_last_read_step, g_clock_last_value, g_clock_
 static mvsim_probe_cb_t g_probe_cb;
 static int g_rr_left;
 static uint64_t g_func_steps;
+static int g_bug_permille;
 static uint64_t g_pct_points[8];
 static long g_pct_low;
 static unsigned char g_pairmap[160 * 160 / 8 + 1];
@@ -369,6 +370,8 @@ void mvsim_begin_run(const mvsim_runcfg *c) {
   g_rr_left = 0;
   mvsim_rng_seed(&g_rng_sched, c->run_seed, 1);
   mvsim_rng_seed(&g_rng_rand, c->run_seed, 2);
+  { mvsim_rng t; mvsim_rng_seed(&t, c->run_seed, 7); uint64_t x = mvsim_rng_below(&t, 1000);
+    g_bug_permille = x < 500 ? 0 : x < 700 ? 10 : x < 900 ? 50 : 200; }
   mvsim_rng_seed(&g_rng_clock, c->run_seed, 3);
   mvsim_rng_seed(&g_rng_poison, c->run_seed, 4);
   g_clock_ns = c->clk_epoch_s * 1000000000ULL + c->clk_epoch_ns;
@@ -750,6 +753,19 @@ int myth_verif_random(int min, int max, int *result) {
   g_st.rand_draws++;
   *result = min + (int)v;
   return 1;
+}
+
+/* cooperative fault points ("buggify"): in about half of the runs, and then with a per-run rate of 1..20 %, an
+   operation that may legally fail (a trylock on a run queue's lock: "another thief holds it right now") fails.
+   Rate and on/off derive from the run seed; the outcomes are recorded with the random draws, so replay is exact. */
+int myth_verif_buggify(int site) {
+  if (!g_active || g_bug_permille == 0) return 0;
+  long v;
+  if (g_replay) v = g_rp_rand_i < g_rp_rand.n ? g_rp_rand.v[g_rp_rand_i++] : 0;
+  else v = mvsim_rng_below(&g_rng_rand, 1000) < (uint64_t)g_bug_permille;
+  lv_push(&g_tr_rand, v);
+  if (site >= 0 && site < 160) g_st.probe[site] += (uint64_t)(v != 0);
+  return v != 0;
 }
 
 int myth_verif_gettime(struct timespec *ts) {
